@@ -36,6 +36,7 @@ type sthread struct {
 	gid     int64         // goroutine running the current request
 	parked  string        // point at which it is parked ("" = running or not started)
 	running bool          // released and not yet arrived / done (possibly blocked on a lock)
+	dead    bool          // declared hung: never stepped again
 	todo    []Call
 }
 
@@ -65,6 +66,7 @@ type Sched struct {
 
 func NewSched(e *Emu, progs [][]Call) *Sched {
 	installHook()
+	e.concurrent = true
 	s := &Sched{e: e}
 	for _, p := range progs {
 		s.threads = append(s.threads, &sthread{todo: p})
@@ -105,6 +107,9 @@ func (s *Sched) Step(i int) Outcome {
 		return Outcome{Kind: "idle"}
 	}
 	t := s.threads[i]
+	if t.dead {
+		return Outcome{Kind: "idle"}
+	}
 	if !t.running && t.parked == "" {
 		if len(t.todo) == 0 {
 			return Outcome{Kind: "idle"}
@@ -132,7 +137,7 @@ func (s *Sched) Step(i int) Outcome {
 	}
 	// wait for the step's outcome: the thread parks at the next yield point, returns, or its
 	// goroutine is seen waiting for a lock (runtime goroutine state) = blocked
-	deadline := time.Now().Add(10 * time.Second)
+	deadline := time.Now().Add(4 * time.Second)
 	for {
 		select {
 		case p := <-t.arrive:
@@ -169,7 +174,13 @@ func (s *Sched) Step(i int) Outcome {
 			return Outcome{Kind: "blocked"}
 		}
 		if time.Now().After(deadline) {
-			return Outcome{Kind: "done", Resp: &Resp{Code: 98, Kind: "none", Panic: "thread neither parked, returned nor blocked on a lock within 10s (hang)"}}
+			t.dead = true
+			for _, o := range s.threads {
+				if o.running {
+					o.dead = true // whatever waits behind a hung thread is lost too
+				}
+			}
+			return Outcome{Kind: "done", Resp: &Resp{Code: 98, Kind: "none", Panic: "thread neither parked, returned nor blocked on a lock within 4s (hang)"}}
 		}
 	}
 }
